@@ -32,8 +32,8 @@ def check_access_rows(chk, it, tabs, rows, configs, rule_rt, rule_ea, rt_check, 
         try:
             mt = mr.extract_mem(it, row, tabs, configs)
         except emit.ScriptMismatch as e:
-            chk.fail(rule_ea, nm + ':memarg-decoders', '%s: %s - the alignment/offset immediates are u32 LEB128 values; read otherwise, a '
-                     'valid encoding yields another offset' % (nm, e), site)
+            # the alignment/offset immediates are u32 LEB128 values; a decoder of another kind is decided on bytes (emit.decide_mismatch)
+            emit.decide_mismatch(chk, rule_ea, nm + ':memarg-decoders', e, site, '%s: ' % nm)
             continue
         if not mt.variants:
             chk.fail(rule_ea, nm + ':emits', 'no successful emission path for %s' % nm, site)
